@@ -85,6 +85,7 @@ func runBGVShare(c *eng.Ctx, cc caseCfg) {
 	if w == nil {
 		return
 	}
+	w.setX(cc)
 	c.Sample(cc)
 	bp, n, t := w.bp, w.cf.Parties, w.bp.PlaintextModulus()
 	params := w.params
@@ -109,7 +110,7 @@ func runBGVShare(c *eng.Ctx, cc caseCfg) {
 		return
 	}
 	freshB := 1 + pkEncBound(params, float64(n*params.N())) // generous a-priori bound on the input noise (sk or pk encryption)
-	for ctLevel := params.MaxLevel(); ctLevel >= 0; ctLevel-- {
+	for _, ctLevel := range w.levels(params.MaxLevel()) {
 		// share levels at which the masked decryption is guaranteed to be exact
 		lv := levelsFor(ctLevel, func(l int) bool { return budgetBGV(bp, l, freshB+float64(n)*(B+1)+1) })
 		if len(lv) == 0 {
@@ -119,6 +120,12 @@ func runBGVShare(c *eng.Ctx, cc caseCfg) {
 		shareLevel := lv[w.rnd.N(len(lv))]
 		if w.rnd.N(3) == 0 {
 			shareLevel = lv[len(lv)-1] // smallest admissible
+		}
+		// used receivers: the public share is allocated above the level it ends up at (the level of
+		// the ciphertext, when the budget allows decrypting there)
+		allocAbove := w.x.Dirty && lv[0] == ctLevel && w.rnd.Bool()
+		if allocAbove {
+			shareLevel = ctLevel
 		}
 		m := w.newMessage(ctLevel, eng.Pick(w.rnd, "sk", "pk"), -1)
 		if m.eInMax > freshB {
@@ -143,13 +150,20 @@ func runBGVShare(c *eng.Ctx, cc caseCfg) {
 		pubPolys := make([]ring.Poly, n)
 		ok := true
 		for i := 0; i < n && ok; i++ {
-			protos[i] = e2s
-			if i%2 == 1 {
-				protos[i] = e2s.ShallowCopy()
-			}
+			protos[i] = inst(w, "bgv-e2s", i, e2s, mpbgv.EncToShareProtocol.ShallowCopy)
 			alloc := shareLevel
+			if allocAbove {
+				alloc = params.MaxLevel()
+				c.Count("x_shares_allocated_above_their_level", 1)
+			}
 			pub[i] = protos[i].AllocateShare(alloc)
 			sec[i] = mpbgv.NewAdditiveShare(bp)
+			w.dirtyPoly(params, pub[i].Value)
+			if w.x.Dirty {
+				for j := range sec[i].Value.Coeffs[0] {
+					sec[i].Value.Coeffs[0][j] = w.rnd.U64() % t
+				}
+			}
 			if !c.Try(sigE+".GenShare", func() { protos[i].GenShare(w.in.sk[i], ct, &sec[i], &pub[i]) }) {
 				ok = false
 				break
@@ -180,6 +194,7 @@ func runBGVShare(c *eng.Ctx, cc caseCfg) {
 				break
 			}
 			e2sPool.add(e)
+			w.ppool("bgv-e2s", i).add(e)
 			pubPolys[i] = pub[i].Value
 		}
 		if !ok {
@@ -221,6 +236,11 @@ func runBGVShare(c *eng.Ctx, cc caseCfg) {
 			}
 		}
 		outShare := mpbgv.NewAdditiveShare(bp)
+		if w.x.Dirty {
+			for j := range outShare.Value.Coeffs[0] {
+				outShare.Value.Coeffs[0][j] = w.rnd.U64() % t
+			}
+		}
 		okG := c.Try(sigE+".GetShare", func() {
 			switch shape {
 			case "alias":
@@ -289,11 +309,9 @@ func runBGVShare(c *eng.Ctx, cc caseCfg) {
 		c0Polys := make([]ring.Poly, n)
 		ok = true
 		for i := 0; i < n && ok; i++ {
-			p := s2e
-			if i%2 == 1 {
-				p = s2e.ShallowCopy()
-			}
+			p := inst(w, "bgv-s2e", i, s2e, mpbgv.ShareToEncProtocol.ShallowCopy)
 			c0[i] = p.AllocateShare(crpLevel)
+			w.dirtyPoly(params, c0[i].Value)
 			var gerr error
 			secBefore := append([]uint64(nil), addSh[i].Value.Coeffs[0]...)
 			if !c.Try(sigS+".GenShare", func() { gerr = p.GenShare(outKeys.sk[i], crp, addSh[i], &c0[i]) }) {
@@ -318,6 +336,7 @@ func runBGVShare(c *eng.Ctx, cc caseCfg) {
 				break
 			}
 			s2ePool.add(e)
+			w.ppool("bgv-s2e", i).add(e)
 			c0Polys[i] = c0[i].Value
 		}
 		if !ok {
@@ -345,6 +364,11 @@ func runBGVShare(c *eng.Ctx, cc caseCfg) {
 			continue
 		}
 		ctRec := bgv.NewCiphertext(bp, 1, crpLevel)
+		if w.x.Dirty {
+			// a receiver of another level, holding an earlier result: GetEncryption copies (and resizes)
+			ctRec = bgv.NewCiphertext(bp, 1, w.rnd.N(params.MaxLevel()+1))
+			w.dirtyCt(params, ctRec)
+		}
 		*ctRec.MetaData = *ct.MetaData
 		var rerr error
 		if !c.Try(sigS+".GetEncryption", func() { rerr = s2e.GetEncryption(aggC0, crp, ctRec) }) {
@@ -371,6 +395,8 @@ func runBGVShare(c *eng.Ctx, cc caseCfg) {
 	}
 	checkFloor(c, sigE+".GenShare", e2sPool, nd.Sigma, nd.Sigma)
 	checkFloor(c, sigS+".GenShare", s2ePool, nd.Sigma, nd.Sigma)
+	w.checkPools("bgv-e2s", sigE+".GenShare", nd.Sigma, nd.Sigma)
+	w.checkPools("bgv-s2e", sigS+".GenShare", nd.Sigma, nd.Sigma)
 }
 
 var _ = rlwe.NewScale
